@@ -74,7 +74,7 @@ class Model:
         for d in cfg['devs']:
             k = d['kind']
             # a device with an upstream that does not exist yet is wired after all devices were created
-            ups = [] if d.get('late') else [self.dev[u] for u in d.get('ups', [])]
+            ups = [] if (d.get('late') or k in ('ginput', 'goutput')) else [self.dev[u] for u in d.get('ups', [])]
             name = 'd%d' % d['id']
             if k == 'source':
                 budget = float('inf') if d.get('budget', INF) == INF else d['budget']
@@ -110,13 +110,17 @@ class Model:
                 o = PartFlowController(name, ups)
             elif k == 'batcher':
                 o = PartBatcher(name, ups, output_batch_size=(d['bsize'] if d.get('bsize', 0) > 0 else None))
-            elif k == 'group':
-                # members are device ids created before; paths are created as 'gpath' devices
-                g = Group(name, [self.dev[m] for m in d['members']])
+            elif k == 'ginput':
+                # the group over the member devices created before; its pseudo-devices get this and the next id
+                g = Group(name, [self.dev[m] for m in d['members']],
+                          input_override=[self.dev[m] for m in d['inputs']],
+                          output_override=[self.dev[m] for m in d['outputs']])
                 self.groups[d['id']] = g
-                o = None
+                o = g._input_device
+            elif k == 'goutput':
+                o = self.groups[d['id'] - 1]._output_device
             elif k == 'gpath':
-                o = self.groups[d['group']].get_new_group_path(name, ups)
+                o = self.groups[d['gin']].get_new_group_path(name, ups)
             else:
                 raise ValueError(k)
             if o is not None:
@@ -125,13 +129,12 @@ class Model:
                 o._vid = d['id']
                 o._vkind = k
                 self._callbacks(o, d)
+        kinds = {x['id']: x['kind'] for x in cfg['devs']}
         for d in cfg['devs']:
-            if d.get('late'):
+            # devices whose upstream is a group input were connected by the group itself
+            if d.get('late') and d['kind'] not in ('ginput', 'goutput') \
+                    and not any(kinds[u] == 'ginput' for u in d['ups']):
                 self.dev[d['id']].set_upstream([self.dev[u] for u in d['ups']])
-        # group input / output pseudo devices are pass-through: the tracer maps them to their group
-        for gid, g in self.groups.items():
-            self.by_asset[g._input_device.id] = -gid * 2
-            self.by_asset[g._output_device.id] = -gid * 2 - 1
         self.maint = None
         if any(c.get('call') == 'workorder' for c in cfg.get('script') or []):
             c = cfg.get('maintcap', INF)
